@@ -2,7 +2,11 @@
 
 from __future__ import annotations
 
+import ast
+
+from ..astutil import inside
 from ..defuse import show
+from ..events import container_events, root_name
 from ..proto import Calls
 from ..tutil import bound_args
 
@@ -55,3 +59,54 @@ FASTA_DIGEST_OPTIONS = {
 }
 FASTA_OPTIONS = dict(FASTA_DIGEST_OPTIONS, fasta_files="proteins",
                      decoy_prefix="decoy_prefix")
+
+
+PURE_GROWTH = {"append", "extend", "add", "update", "insert", "store", "aug",
+               "setdefault", "appendleft"}
+
+
+def loop_carried_state(ctx, f, du, Tv, cfg, loop, rule, what, floor):
+    """No container that one iteration of ``loop`` both fills and reads is
+    created outside the loop: what one iteration (one collection, one file)
+    recorded cannot show up in the result of the next.  A container created
+    before the loop that the iterations only *add to* (a result accumulator,
+    read after the loop) is not state carried between iterations and is
+    left alone.  Read off container events and definitions; no variable is
+    named."""
+    evs = [e for e in container_events(f.node, Tv, cfg)
+           if inside(e.node, loop)]
+    roots = {}
+    for e in evs:
+        r = root_name(e.recv)
+        if r is not None:
+            roots.setdefault(r, []).append(e)
+    ctx.floor(rule + "-containers", len(roots), floor)
+    params = set(f.params)
+    for name, es in sorted(roots.items()):
+        if name in params:
+            continue
+        created = [d for d in du.defs if d.name == name
+                   and d.node is not None and d.kind not in (
+                       "mut", "store", "augstore", "delitem", "del")]
+        outside = [d for d in created if not inside(d.node, loop)]
+        written = set()
+        for e in es:
+            if e.kind in PURE_GROWTH:
+                n = e.node
+                recv = n.func.value if isinstance(n, ast.Call) else getattr(
+                    n, "value", None)
+                for x in ast.walk(recv) if recv is not None else ():
+                    written.add(id(x))
+        reads = [n for n in ast.walk(loop) if isinstance(n, ast.Name)
+                 and n.id == name and isinstance(n.ctx, ast.Load)
+                 and id(n) not in written]
+        ok = not outside or not reads
+        ctx.check(ok, rule, f,
+                  f"'{name}' is created afresh for every {what} (or only "
+                  f"added to and read after the loop)",
+                  f"'{name}' is created before the loop over the {what}s "
+                  f"(line {outside[0].node.lineno if outside else 0}), "
+                  f"filled inside it and read inside it (line "
+                  f"{reads[0].lineno if reads else 0}): what one {what} "
+                  f"recorded is still there for the next",
+                  node=(reads[0] if reads else es[0].node))
